@@ -1,5 +1,7 @@
 package utils
 
+import "github.com/TheManticoreProject/Manticore/windows/keycredential/key"
+
 // C15 — key-credential DateTime: ticks since 1601 to Go time, exact for every non-zero tick count a signed FILETIME can hold.
 func H_C15_datetime() {
 	ticks := vU64("ticks")
@@ -11,5 +13,24 @@ func H_C15_datetime() {
 	wantNsec := int64(ticks%10000000) * 100
 	vCheck(dt.Time.Unix() == wantSec, "datetime/seconds-exact")
 	vCheck(int64(dt.Time.Nanosecond()) == wantNsec, "datetime/nanoseconds-exact")
+	vCover("end")
+}
+
+// ConvertFromBinaryTime: for every credential version (0, 0x100, 0x200 and an unknown one) and both key sources the eight
+// little-endian bytes are the tick count, unmodified.
+func H_C15_binary_time() {
+	ticks := vU64("ticks")
+	vAssume(ticks != 0)
+	vAssume(ticks <= 0x7FFFFFFFFFFFFFFF)
+	raw := []byte{byte(ticks), byte(ticks >> 8), byte(ticks >> 16), byte(ticks >> 24), byte(ticks >> 32), byte(ticks >> 40), byte(ticks >> 48), byte(ticks >> 56)}
+	versions := [4]uint32{key.KeyCredentialVersion_0, key.KeyCredentialVersion_1, key.KeyCredentialVersion_2, 0x300}
+	ver := key.KeyCredentialVersion{Value: versions[vParam("version")]}
+	src := key.KeySource_AD
+	if vParam("source") == 1 {
+		src = key.KeySource_AzureAD
+	}
+	dt := ConvertFromBinaryTime(raw, src, ver)
+	vCheck(dt.ToTicks() == ticks, "binary-time/ticks-are-the-eight-bytes")
+	vCheck(dt.Time.Unix() == int64(ticks/10000000)-11644473600, "binary-time/seconds-exact")
 	vCover("end")
 }
